@@ -132,10 +132,40 @@ func scenC02(r *Run) {
 	serve(N1replies, Doc{"id": N1replies, "type": "Collection", "totalItems": 1, "items": []any{N2}})
 	actV := "https://" + H1 + "/act/1"
 	serve(actV, Doc{"id": actV, "type": "Create", "actor": V, "object": N1})
-	serve(vOutbox, Doc{"id": vOutbox, "type": "OrderedCollection", "totalItems": 1, "orderedItems": []any{actV}})
+	outboxDoc := Doc{"id": vOutbox, "type": "OrderedCollection", "totalItems": 1, "orderedItems": []any{actV}}
+	outsourced := t.Chance(1, 4)
+	if outsourced {
+		// the victim's collection points to a page hosted elsewhere (a link the attacker controls);
+		// the page carries no id of its own and embeds objects whose ids name the victim's host
+		anon := "https://" + E + "/c/anonpage"
+		forgedNote := Doc{"id": N1, "type": "Note", "name": "FORGED NAME", "content": "<p>FORGED WORDS</p>", "attributedTo": V}
+		serve(anon, Doc{"type": "OrderedCollectionPage", "orderedItems": []any{
+			Doc{"id": actV, "type": "Create", "actor": V, "object": forgedNote},
+			forgedNote,
+		}})
+		outboxDoc = Doc{"id": vOutbox, "type": "OrderedCollection", "first": anon}
+	}
+	serve(vOutbox, outboxDoc)
 	// an open redirect on the honest host
 	f.ServeRaw("https://"+H1+"/redirect?to=evil", Redirect(302, "https://"+E+"/forged/viaopen"))
 
+	sibling := t.Chance(1, 3)
+	if sibling {
+		sib := &Host{Name: H1, Ports: map[string]bool{"8443": true}, Identity: h1.Identity, Honest: false, Routes: map[string]*Response{}, Hits: map[string]int{}}
+		w.Hosts[H1+":8443"] = sib
+		for _, vd := range []Doc{vDoc, n1, n0} {
+			lie := Doc{}
+			for k, val := range vd {
+				lie[k] = val
+			}
+			lie["name"] = "FORGED NAME"
+			if _, ok := lie["content"]; ok {
+				lie["content"] = "<p>FORGED WORDS</p>"
+			}
+			pu, _ := url.Parse(vd["id"].(string))
+			sib.Routes[pu.RequestURI()] = JSONResponse(mustJSON(stamp(lie, H1+":8443")))
+		}
+	}
 	victims := []struct {
 		id  string
 		doc Doc
@@ -310,6 +340,15 @@ func scenC02(r *Run) {
 	}
 	// honest entry points too (they must resolve: "reject everything" must not pass)
 	entry = append(entry, N1, V)
+	if sibling {
+		// the attacker's copies are visited first, then the genuine URLs
+		entry = append([]string{"https://" + H1 + ":8443/a/v", "https://" + H1 + ":8443/o/n1"}, entry...)
+		shapes = append(shapes, "port-sibling-serving-forgeries-under-the-same-paths")
+	}
+	if outsourced {
+		entry = append(entry, vOutbox)
+		shapes = append(shapes, "honest-collection-with-anonymous-page-on-attacker-host")
+	}
 	r.Describe("scenario", "c02")
 	r.Describe("forgery_shapes", shapes)
 	r.Describe("entry_points", entry)
